@@ -301,6 +301,25 @@ theorem saveBmp_read (k : Kind) (w h : Nat) (data : Bytes)
     intro r hr
     simp only [E, hD r hr, Option.getD_some]
 
+/-- Filters whose decoding is lossless (their decoders are C03's subject; here `data` is what
+    `stream.get_data()` returns). -/
+def Lossless (f : Flt) : Prop := f = .flate ∨ f = .lzw ∨ f = .a85 ∨ f = .ahx ∨ f = .rl
+
+theorem lossless_getLast (filters : List Flt) (hl : ∀ f ∈ filters, Lossless f) :
+    filters.getLast? ≠ some .dct ∧ filters.getLast? ≠ some .jpx ∧ filters.contains .jbig2 = false := by
+  refine ⟨?_, ?_, ?_⟩
+  · intro h
+    have := hl _ (List.mem_of_getLast? h)
+    rcases this with h | h | h | h | h <;> cases h
+  · intro h
+    have := hl _ (List.mem_of_getLast? h)
+    rcases this with h | h | h | h | h <;> cases h
+  · cases hc : filters.contains Flt.jbig2 with
+    | false => rfl
+    | true =>
+      have := hl _ (by simpa using hc)
+      rcases this with h | h | h | h | h <;> cases h
+
 /-! ### the row-wise meaning of samples equals the pixel-by-pixel (indexed) one -/
 
 theorem splitRows_range (bpl : Nat) : ∀ (h : Nat) (data : Bytes),
